@@ -586,7 +586,7 @@ class Runner:
                     mine = None
                 if tf.fired:
                     self.stat("fault_fired_" + op["exc"])
-                    self.log.ev("aborted", at=op.get("at_line"), where=tf.where, exc=op["exc"])
+                    self.log.ev("aborted", at=op.get("at_line"), exc=op["exc"])
                     import nbdime.merging.generic as mg
                     if mg._merge_strings.recursion:
                         self.stat("probe_abort_inside_string_merge_left_flag")
